@@ -188,7 +188,61 @@ class CombTemps(Component):
       s.out2 @= a ^ c
 
 
+@bitstruct
+class Tail:
+  a: Bits2
+  b: Inner
+  c: Bits4
+  d: [Bits3] * 2
+  e: Bits1
+
+
+class NestedStructIn(Component):
+  """struct-typed INPUT only (nested struct with two fields in the middle, fields and a list after it); outputs are plain vectors,
+  some read in a block and some connected"""
+  def construct(s):
+    s.in_ = InPort(Tail); s.oa = OutPort(2); s.ox = OutPort(3); s.oy = OutPort(5); s.oc = OutPort(4); s.od = OutPort(3); s.oe = OutPort(1); s.ob = OutPort(Inner)
+    s.oc //= s.in_.c
+    s.oe //= s.in_.e
+    @update
+    def up_nsi():
+      s.oa @= s.in_.a
+      s.ox @= s.in_.b.a
+      s.oy @= s.in_.b.b
+      s.od @= s.in_.d[1] ^ s.in_.d[0]
+      s.ob @= s.in_.b
+
+
+class ArrIfc(Interface):
+  def construct(s):
+    s.msg = [InPort(8) for _ in range(2)]
+    s.rdy = [OutPort(1) for _ in range(2)]
+    s.en = InPort(1)
+
+
+class IfcPortArray(Component):
+  """a single (non-array) interface that contains arrays of ports"""
+  def construct(s):
+    s.ifc = ArrIfc()
+    s.sum = OutPort(8)
+    @update
+    def up_ipa():
+      s.sum @= s.ifc.msg[0] + s.ifc.msg[1]
+      for i in range(2):
+        s.ifc.rdy[i] @= s.ifc.en & s.ifc.msg[i][0]
+
+
+class IfcPortArrayConnect(Component):
+  def construct(s):
+    s.ifc = ArrIfc()
+    s.o = [OutPort(8) for _ in range(2)]
+    for i in range(2):
+      s.o[i] //= s.ifc.msg[1 - i]
+      s.ifc.rdy[i] //= s.ifc.en
+
+
 DESIGNS = {
+  'x:NestedStructIn': NestedStructIn, 'x:IfcPortArray': IfcPortArray, 'x:IfcPortArrayConnect': IfcPortArrayConnect,
   'x:SeqTemps': SeqTemps, 'x:CombTemps': CombTemps,
   'x:Grid2D': Grid2D, 'x:Grid2DConnect': Grid2DConnect, 'x:PortArray2D': PortArray2D, 'x:PortArray2DConnect': PortArray2DConnect,
   'x:StructArr2D': StructArr2D, 'x:StructArr2DBehav': StructArr2DBehav, 'x:NestedStruct': NestedStruct, 'x:SextSliceHi': SextSliceHi,
